@@ -121,22 +121,30 @@ func run(c *lib.Ctx) error {
 		segMS := a.LoopMS / N
 		for k := 0; k < nCfg; k++ {
 			cfg := lib.TLCfg{StartS: starts[rng.Intn(len(starts))], Snr: -1, Tsbd: tsbds[rng.Intn(len(tsbds))], Mode: modes[rng.Intn(len(modes))]}
-			switch rng.Intn(5) {
+			switch rng.Intn(7) {
 			case 0:
 				cfg.AtoMS = segMS / 4
 			case 1:
 				cfg.AtoMS = 1 + rng.Int63n(segMS-1)
+			case 2:
+				cfg.AtoMS = segMS + segMS/2 // longer than a segment
+			case 3:
+				cfg.AtoMS = a.LoopMS*(1+rng.Int63n(2)) + segMS + segMS/2 // reaches more than a whole loop ahead
 			}
 			if k < 3 {
 				cfg = lib.TLCfg{Snr: -1, Tsbd: -1, Mode: modes[k]}
 			}
+			if k == 3 {
+				// an offset that reaches more than a whole loop ahead
+				cfg = lib.TLCfg{Snr: -1, Tsbd: -1, Mode: modes[rng.Intn(2)], AtoMS: a.LoopMS*(1+rng.Int63n(2)) + segMS + segMS/2}
+			}
 			s := &sweep{a: a, cfg: cfg, avail: map[int64]int64{}}
-			if k >= 3 && rng.Intn(4) == 0 {
+			if k > 3 && rng.Intn(4) == 0 {
 				// a stop time a few segments after the swept range begins
 				s.stopS = cfg.StartS + 3*a.LoopMS/1000 + rng.Int63n(20)
 				s.cfg.Extra = fmt.Sprintf("stop_%d/", s.stopS)
 			}
-			if k >= 3 && s.stopS == 0 && rng.Intn(5) == 0 && 120000%segMS == 0 && a.LoopMS%N == 0 {
+			if k > 3 && s.stopS == 0 && rng.Intn(5) == 0 && 120000%segMS == 0 && a.LoopMS%N == 0 {
 				s.cfg.Extra = "periods_30/" // 120 s periods: a multiple of the segment duration
 			}
 			base := []int64{0, N - 2, 2*N - 2, 40 + rng.Int63n(3*N), 2000000 + rng.Int63n(1000)}[rng.Intn(5)]
